@@ -93,7 +93,7 @@ def alloc_violation(res, ev):
     return z3.And(z3.UGT(sz, z3.BitVecVal(MAX_OK_ALLOC, 128)), z3.UGT(sz, lim))
 
 
-def run_entry(prog, entry, loop_bound, max_paths):
+def run_entry(prog, entry, loop_bound, max_paths, prefixes=None, stop_pending=None):
     """explore one entry; returns a JSON-serialisable summary"""
     out = {"entry": entry.name, "states": 0, "queries": 0, "solver_s": 0.0, "obligations": 0, "discharged": 0,
            "replays_ok": 0, "replays_bad": 0, "inconclusive": [], "gaps": {}, "reports": [], "kinds": {},
@@ -188,7 +188,7 @@ def run_entry(prog, entry, loop_bound, max_paths):
                     entry.name, big, data2.hex()))
 
     try:
-        eng.explore(entry.thunk(eng), on_result=on_result)
+        eng.explore(entry.thunk(eng), on_result=on_result, prefixes=prefixes, stop_pending=stop_pending)
     except Inconclusive as e:
         out["inconclusive"].append("%s: %s" % (entry.name, e))
     rep.close()
@@ -201,6 +201,7 @@ def run_entry(prog, entry, loop_bound, max_paths):
                    "validated_natively": out["validated"], "input_max": entry.max_len,
                    "seconds": round(time.time() - t0, 2)}
     out["stubs"] = sorted(set(c.split("::<")[0][:80] for c in st.calls_modelled))
+    out["pending"] = list(getattr(eng, "pending", []))
     return out
 
 
@@ -237,7 +238,7 @@ def run(tier, regenerate=True):
     rep.build()
     chk.extra["replay_build_s"] = round(rep.build_s, 1)
     max_paths = 4000 if tier == "quick" else 40000
-    results = par.map_entries(lambda e: run_entry(prog, e, loop_bound, max_paths), entries)
+    results = par.explore_entries(lambda e, pre, stop: run_entry(prog, e, loop_bound, max_paths, pre, stop), entries)
     approx = {}
     for out in results:
         if isinstance(out, Exception) or out is None:
@@ -255,7 +256,12 @@ def run(tier, regenerate=True):
             chk.gaps[k] = chk.gaps.get(k, 0) + n
         for key, desc, case in out["reports"]:
             chk.report(key, desc, case)
-        chk.functions[out["entry"]] = out["info"]
+        info = out["info"]
+        info["paths"] = out["states"]
+        info["outcomes"] = out["kinds"]
+        info["input_max"] = {e.name: e.max_len for e in entries}.get(out["entry"])
+        info["mir_bodies_executed"] = "n/a (merged over workers)" if info.get("mir_bodies_executed", 0) > 2000 else info.get("mir_bodies_executed")
+        chk.functions[out["entry"]] = info
         chk.samples.extend(out["samples"])
         chk.stubs.update(out["stubs"])
         for k, n in out["approx"].items():
